@@ -176,4 +176,39 @@ func glueFacts(p *pkg, f *facts) {
 	} else {
 		f.boolean("commitFailsWhenOpenFails", false, false, "func NFSProcedureHandler.handleCommit not found")
 	}
+	// C17: the accept loop counts a connection only after the host filter admitted its peer, and a closing
+	// connection is uncounted whatever the logging options
+	if fn, ok := p.funcs["Server.acceptLoop"]; ok && fn.Body != nil {
+		filt := p.posOf(fn, "if", "!s.isIPAllowed(clientIP)")
+		reg := p.posOf(fn, "call", "s.registerConnection(conn)")
+		f.boolean("acceptLoopFiltersBeforeCounting", filt != 0 && reg != 0 && filt < reg, true, "")
+	} else {
+		f.boolean("acceptLoopFiltersBeforeCounting", false, false, "func Server.acceptLoop not found")
+	}
+	if fn, ok := p.funcs["Server.unregisterConnection"]; ok && fn.Body != nil {
+		var decPos token.Pos
+		ast.Inspect(fn.Body, func(n ast.Node) bool {
+			if st, ok := n.(*ast.IncDecStmt); ok && st.Tok == token.DEC && squeeze(exprString(p.fset, st.X)) == "s.connCount" {
+				decPos = st.Pos()
+			}
+			return true
+		})
+		underDebug := false
+		for _, c := range p.enclosingIfConds(fn, decPos) {
+			if strings.Contains(c, "Debug") {
+				underDebug = true
+			}
+		}
+		f.boolean("unregisterUncountsUnconditionally", decPos != 0 && !underDebug, true, "")
+	} else {
+		f.boolean("unregisterUncountsUnconditionally", false, false, "func Server.unregisterConnection not found")
+	}
+	// C20: Resize records the new size before it starts the workers again
+	if fn, ok := p.funcs["WorkerPool.Resize"]; ok && fn.Body != nil {
+		set := p.posOf(fn, "assign", "p.maxWorkers=maxWorkers")
+		start := p.posOf(fn, "call", "p.Start()")
+		f.boolean("resizeSetsSizeBeforeStart", set != 0 && start != 0 && set < start, true, "")
+	} else {
+		f.boolean("resizeSetsSizeBeforeStart", false, false, "func WorkerPool.Resize not found")
+	}
 }
